@@ -153,7 +153,9 @@ class SourceHandler(SourceHandlerMixin, NextTokenBaseHandler):
                 cte_dict = {s.alias: s for s in holder.cte}
                 if "." not in identifier.value:
                     cte = cte_dict.get(
-                        escape_identifier_name(identifier.get_real_name())
+                        escape_identifier_name(
+                            identifier.get_real_name() or identifier.value
+                        )
                     )
                     if cte is not None:
                         # could reference CTE with or without alias
